@@ -622,13 +622,19 @@ class Recfile(object):
         elif stop > self.nrows:
             stop = self.nrows
 
+        # python slice semantics: negative bounds count from the end and
+        # out-of-range bounds are clamped
         if start < 0:
             start = self.nrows + start
             if start < 0:
-                raise IndexError("Index out of bounds")
+                start = 0
+        elif start > self.nrows:
+            start = self.nrows
 
         if stop < 0:
             stop = self.nrows + stop
+            if stop < 0:
+                stop = 0
 
         if stop < start:
             # will return an empty struct
